@@ -15,5 +15,6 @@ CONSTANTS
   MaxDeliver = 3
   FailPoints = {0,1,2,3,4,5,6,7}
   AllowEarly = TRUE
+  AllowPkUpd = FALSE
 INVARIANTS Dump
 CHECK_DEADLOCK FALSE
